@@ -25,12 +25,15 @@ pub struct Ctl {
     pub faults_fired: AtomicU64,
     /// when set, every mutating call after the first fault also fails
     pub sticky: AtomicU64,
+    /// number of flush calls still to succeed before one fails; negative = none armed
+    pub fail_flush_in: AtomicI64,
 }
 
 impl Ctl {
     pub fn new() -> Arc<Ctl> {
         let c = Ctl::default();
         c.fail_in.store(-1, Ordering::SeqCst);
+        c.fail_flush_in.store(-1, Ordering::SeqCst);
         Arc::new(c)
     }
     pub fn steps(&self) -> u64 {
@@ -109,6 +112,14 @@ impl<S: StorageData> StorageData for MonStorage<S> {
     }
     fn flush(&mut self) -> Result<(), DbError> {
         self.ctl.flushes.fetch_add(1, Ordering::Relaxed);
+        let v = self.ctl.fail_flush_in.load(Ordering::SeqCst);
+        if v == 0 {
+            self.ctl.fail_flush_in.store(-1, Ordering::SeqCst);
+            self.ctl.faults_fired.fetch_add(1, Ordering::SeqCst);
+            return Err(fault_err());
+        } else if v > 0 {
+            self.ctl.fail_flush_in.store(v - 1, Ordering::SeqCst);
+        }
         self.inner.flush()
     }
     fn len(&self) -> u64 {
